@@ -134,6 +134,40 @@ static std::string describe(int k, const ipr::String& s, bool with_arena)
 
 static int lex_index(const std::string& s) { return s == "L1" ? 1 : 0; }
 
+// Reserved words as a client translation unit sees them DURING STATIC INITIALISATION (this TU is linked before the library, so its
+// initialisers run first): a Lexicon used there must already answer the process-wide constant for every reserved word.  Which
+// candidates ARE reserved is decided in main(): those for which two fresh Lexicons answer one and the same node.
+namespace {
+   const char8_t* const early_candidates[] = {
+      u8"int", u8"char", u8"bool", u8"void", u8"double", u8"float", u8"long", u8"short", u8"wchar_t", u8"unsigned long long", u8"unsigned char",
+      u8"const", u8"volatile", u8"restrict", u8"static", u8"extern", u8"inline", u8"virtual", u8"class", u8"union", u8"enum", u8"namespace",
+      u8"typename", u8"auto", u8"this", u8"true", u8"false", u8"nullptr", u8"default", u8"delete", u8"C", u8"C++", u8"public", u8"private",
+      u8"protected", u8"friend", u8"typedef", u8"explicit", u8"export", u8"mutable", u8"register", u8"thread_local", u8"constexpr",
+      u8"consteval", u8"abstract", u8"=0", u8"decltype", u8"operator", u8"" };
+   struct Early {
+      std::vector<const ipr::String*> seen;
+      Early() { ipr::impl::Lexicon lx; for (auto w : early_candidates) seen.push_back(&lx.get_string(w)); }
+   };
+   const Early early;
+
+   void report_early()
+   {
+      ipr::impl::Lexicon a, b;
+      std::size_t reserved = 0, bad = 0;
+      std::string first;
+      for (std::size_t i = 0; i < early.seen.size(); ++i) {
+         const ipr::String* pa = &a.get_string(early_candidates[i]);
+         const ipr::String* pb = &b.get_string(early_candidates[i]);
+         if (pa != pb) continue;                            // not a process-wide constant: an ordinary word
+         ++reserved;
+         if (early.seen[i] != pa and bad++ == 0) first = std::string(reinterpret_cast<const char*>(early_candidates[i]));
+      }
+      std::cout << "#early reserved=" << reserved << " bad=" << bad << '\n';
+      std::cout << "@early_reserved_words_are_the_constants=" << (bad == 0 ? 1 : 0) << '\n';
+      if (bad) std::cout << "#D during static initialisation `" << first << "` was not the process-wide constant (" << bad << " of " << reserved << " reserved candidates)\n";
+   }
+}
+
 int main()
 {
    std::ios::sync_with_stdio(false);
@@ -211,6 +245,8 @@ int main()
          std::fwrite(out.data(), 1, out.size(), stdout);
       }
       std::fflush(stdout);
+      static bool early_reported = false;
+      if (op == "arena" and not early_reported) { early_reported = true; std::cout.flush(); report_early(); std::cout.flush(); }
    }
    return 0;
 }
